@@ -254,9 +254,9 @@ func (e *explorer) check(out *execOut) {
 		e.res.HarnessError = x.verdict + ": " + x.verdictMsg
 		return
 	case "deadlock":
-		e.add("deadlock scenario="+sc.Name+" "+deadlockClass(x.verdictMsg), "deadlock", x.verdictMsg, out, nil)
+		e.add("deadlock scenario="+sc.sigName()+" "+deadlockClass(x.verdictMsg), "deadlock", x.verdictMsg, out, nil)
 	case "horizon":
-		e.add("horizon scenario="+sc.Name, "horizon", x.verdictMsg+" (livelock or unbounded loop under this schedule)", out, nil)
+		e.add("horizon scenario="+sc.sigName(), "horizon", x.verdictMsg+" (livelock or unbounded loop under this schedule)", out, nil)
 	}
 	for i := range x.races {
 		r := x.races[i]
@@ -268,12 +268,12 @@ func (e *explorer) check(out *execOut) {
 			continue
 		}
 		if strings.HasPrefix(got, "PANIC: ") && (i >= len(e.solo) || e.solo[i] != got) {
-			e.add(fmt.Sprintf("panic scenario=%s op=%s", sc.Name, sc.label(i)), "panic",
+			e.add(fmt.Sprintf("panic scenario=%s op=%s", sc.sigName(), sc.label(i)), "panic",
 				fmt.Sprintf("thread %d (%s) panicked under this schedule: %s -- %s", i, sc.label(i), got, x.verdictMsg), out, nil)
 			continue
 		}
 		if !sc.Shared && i < len(e.solo) && got != e.solo[i] {
-			e.add(fmt.Sprintf("differential scenario=%s op=%s", sc.Name, sc.label(i)), "differential",
+			e.add(fmt.Sprintf("differential scenario=%s op=%s", sc.sigName(), sc.label(i)), "differential",
 				fmt.Sprintf("thread %d (%s) observed %s but alone on a fresh instance it observes %s", i, sc.label(i), clip(got), clip(e.solo[i])), out, nil)
 		}
 	}
@@ -282,7 +282,7 @@ func (e *explorer) check(out *execOut) {
 		if j := strings.IndexByte(class, ':'); j >= 0 {
 			class = class[:j]
 		}
-		e.add(fmt.Sprintf("invariant scenario=%s %s", sc.Name, class), "invariant", out.check, out, nil)
+		e.add(fmt.Sprintf("invariant scenario=%s %s", sc.sigName(), class), "invariant", out.check, out, nil)
 	}
 	key := strings.Join(out.results, " || ")
 	if out.classify != "" {
